@@ -30,6 +30,9 @@ Judge(e) ==
          \cup (IF e.eq = (e.csa = e.csb) THEN {} ELSE {"eq.node.checksum"})
     [] e.op = "EdgeEq" -> JudgeEq(e, "edge", EdgeCanon, EdgeCanon)
     [] e.op = "ListEq" -> JudgeEq(e, "list", ListCanonW, ListCanonS)
+    [] e.op = "NilEq" ->
+         \* comparing with the absent value: false, and the call returns
+         IF e.o.kind = "ok" /\ ~e.eq THEN {} ELSE {"eq." \o e.kind \o ".nil"}
     [] e.op = "NodeEq3" ->
          IF e.ab /\ e.bc /\ ~e.ac THEN {"eq.node.transitive"} ELSE {}
     [] e.op = "Diff" ->
